@@ -47,11 +47,12 @@ fn entries(v: &Value, lo: i64) -> Vec<(i64, i64)> {
     }
 }
 
-fn check_template(case: &Value, t: &Template, root: &Path) -> Option<Value> {
+fn check_template(case: &Value, t: &Template, root: &Path, offset: i64) -> Option<Value> {
     let lo = case["lo"].as_i64().unwrap();
-    let base = case["base"].as_u64().unwrap() as u32;
+    let base = (case["base"].as_i64().unwrap() + offset) as u32;
     let count = case["count"].as_u64().unwrap() as u32;
-    let name_of = |i: i64| t.expanded.replace("{}", &i.to_string());
+    // the model is translation invariant in the index: `offset` moves the whole window (e.g. to the top of u32)
+    let name_of = |i: i64| t.expanded.replace("{}", &(i + offset).to_string());
     let rel = |p: &str| Path::new(p).strip_prefix(root).unwrap().to_string_lossy().to_string();
     // initial directory
     for (i, c) in entries(&case["init"], lo) {
@@ -136,8 +137,11 @@ pub fn main(args: &[String]) {
                 continue;
             }
             runs += 1;
-            if let Some(m) = check_template(case, t, s.path()) {
-                res.push(json!({"case": ci, "template": t.name, "pattern": t.pattern.replace(&d, "<dir>"),
+            // the first template is also run with the window ending exactly at u32::MAX
+            let top = ti == 0 && case["kind"] == "window" && case["count"].as_i64().unwrap() >= 1 && case["base"].as_i64().unwrap() >= 1;
+            let offset = if top { u32::MAX as i64 - (case["base"].as_i64().unwrap() + case["count"].as_i64().unwrap() - 1) } else { 0 };
+            if let Some(m) = check_template(case, t, s.path(), offset) {
+                res.push(json!({"case": ci, "template": t.name, "index_offset": offset, "pattern": t.pattern.replace(&d, "<dir>"),
                     "input": {"base": case["base"], "count": case["count"], "kind": case["kind"], "init": case["init"]},
                     "mismatch": m}));
             }
